@@ -23,6 +23,10 @@ def layout_of(sc):
 def levels(sc):
     """integer level depths per global cell for the default stretching (hc = 0, C = -1 + (k + 1/2)/N)."""
     N = sc["N"]
+    for row in sc["H"]:
+        for h in row:
+            if any((h * (2 * N - 2 * k - 1)) % (2 * N) for k in range(N)):
+                raise ValueError(f"scenario generator bug: level depths of h = {h} with N = {N} are not integers")
     return [[[-(h * (2 * N - 2 * k - 1)) // (2 * N) for k in range(N)] for h in row] for row in sc["H"]]
 
 
